@@ -73,7 +73,8 @@ def observe(sysm, traj, structure, rel, window, cut):
     # the radius given as one number or, equivalently, per label (chosen per representation)
     as_dict = bool(np.frombuffer(np.asarray(rel['tau']).tobytes() + np.asarray(rel['perm_s']).tobytes(), dtype=np.uint8).sum() % 2)
     radius_arg = {lab: float(sysm.radius) for lab in sorted(set(sysm.labels))} if as_dict else float(sysm.radius)
-    tr = traj.transitions_between_sites(structure, 'Li', site_radius=radius_arg)
+    from ..sites_drive import transitions as _transitions
+    tr = _transitions(traj, structure, 'Li', site_radius=radius_arg)
     ps = rel['perm_s']
     site_back = lambda s: int(ps[s]) if s >= 0 else -1
     inv_li = np.argsort(rel['li_ref'])                    # column order that restores the reference atom order
